@@ -21,6 +21,21 @@ fn usage() -> ! {
 
 fn main() {
     let args: Vec<String> = std::env::args().collect();
+    // debugging aid: `pgv-lib parse "<sql>"` shows what pgcat's parser makes of a string
+    if args.len() == 3 && args[1] == "parse" {
+        QueryRouter::setup();
+        let qr = QueryRouter::new();
+        match qr.parse(&pgcat::messages::simple_query(&args[2])) {
+            Ok(ast) => {
+                println!("accepted: {} statement(s)", ast.len());
+                for s in ast {
+                    println!("  {}", s);
+                }
+            }
+            Err(e) => println!("rejected: {:?}", e),
+        }
+        return;
+    }
     if args.len() != 4 {
         usage();
     }
